@@ -746,6 +746,7 @@ pub fn gen_cfg(i: usize) -> crate::progen::Cfg {
         overlapping_impls: i % 3 != 1,
         result_only_generics: i % 4 != 3,
         cov_shapes: i % 4 == 2,
+        finite_polyrec: i % 5 != 2,
         ..Default::default()
     }
 }
